@@ -131,8 +131,16 @@ def run_families(name: str, cases: List[Case], rng: random.Random,
         violations.append({"kind": "oracle", "signature": sig, "what": r["what"],
                            "replay_case": small.to_json(), "observed": coq(small.obs) if small.obs else None})
     mism_reported = 0
+    attributed_c01 = 0
     for c, model in rep["mismatches"]:
         if id(c) in oracle_fail:
+            continue
+        # decimal.InvalidOperation out of a comparison that meets a signalling NaN / an over-large Decimal is the recorded
+        # finding of C01 (the call raises, so there is no result for this property to speak about); the model's `==` is
+        # total, which is why the two differ. C01 itself classifies and reports it.
+        import decimal as _decimal
+        if name != "C01" and isinstance(getattr(c, "exc", None), _decimal.InvalidOperation):
+            attributed_c01 += 1
             continue
         if mism_reported >= 3:
             break
@@ -181,7 +189,8 @@ def run_families(name: str, cases: List[Case], rng: random.Random,
         "rule": "distinct (validator tree, input, mode) triples" + (" meeting the family's non-triviality rule" if nontrivial else ""),
         "samples": samples,
         "traces_validated_against_impl": len(good),
-        "mismatches": len(rep["mismatches"]),
+        "mismatches": len(rep["mismatches"]) - attributed_c01,
+        "raised_InvalidOperation_attributed_to_the_C01_finding": attributed_c01,
         "harness_errors": nhe,
         "oracle_errors": len(oracle_errors),
         "oracle_error_first": oracle_errors[:1],
